@@ -7,9 +7,12 @@ import (
 	"encoding/json"
 	"fmt"
 	"html"
+	"html/template"
+	"io"
 	"math"
 	"reflect"
 	"regexp"
+	"sort"
 	"strings"
 	"testing"
 	"unicode/utf8"
@@ -37,9 +40,54 @@ type TruncCase struct {
 	Trail    vk.Text `json:"trail"`
 	HasTrail bool    `json:"has_trail"`
 	ViaTmpl  bool    `json:"via_template"`
+	// Route (when set, it replaces ViaTmpl): how the options reach the helper.
+	//   nil        text.Truncate(s, nil)                  (no option given: a nil map)
+	//   tmpl-none  <%= raw(truncate(s)) %>                (no option given: argument left out)
+	//   tmpl-nil   <%= raw(truncate(s, nil)) %>           (no option given: nil literal)
+	//   tmpl-hash  <%= raw(truncate(s, {size: n, trail: t})) %>  hash literal with exactly the given keys
+	//   tmpl-gomap <%= raw(truncate(s, opts)) %>          opts a plain map[string]interface{}
+	Route string `json:"route,omitempty"`
 }
 
 func runeLen(s string) int { return len([]rune(s)) }
+
+// nilOptionsClass: the generator class "no option given, spelled as a nil map"
+const nilOptionsClass = "truncate-nil-options"
+
+// truncOracle is the truncate sentence of the statement; "" when got is allowed
+func truncOracle(s string, size int, trail, got string) string {
+	rs, rt, rg := []rune(s), []rune(trail), []rune(got)
+	if len(rs) <= size {
+		if got != s {
+			return fmt.Sprintf("string has %d <= size characters but came back changed: %q", len(rs), got)
+		}
+		return ""
+	}
+	bound := size
+	if len(rt) > bound {
+		bound = len(rt)
+	}
+	if len(rg) > bound {
+		return fmt.Sprintf("result %q has %d characters > max(size, len(trail)) = %d", got, len(rg), bound)
+	}
+	if len(rg) < len(rt) || string(rg[len(rg)-len(rt):]) != string(rt) {
+		return fmt.Sprintf("result %q does not end with the trail", got)
+	}
+	k := len(rg) - len(rt)
+	if k > len(rs) || string(rg[:k]) != string(rs[:k]) {
+		return fmt.Sprintf("result %q is not (prefix of s)+trail in rune space", got)
+	}
+	if utf8.ValidString(s) && utf8.ValidString(trail) {
+		if !utf8.ValidString(got) {
+			return fmt.Sprintf("valid UTF-8 in, invalid UTF-8 out: %q (a multi-byte character was split)", got)
+		}
+		head := got[:len(got)-len(trail)]
+		if !strings.HasPrefix(s, head) {
+			return fmt.Sprintf("head %q of the result is not a byte prefix of s", head)
+		}
+	}
+	return ""
+}
 
 func checkTrunc(r *vk.Run, c TruncCase) *vk.Fail {
 	defer r.Watch("truncate", c)()
@@ -58,61 +106,257 @@ func checkTrunc(r *vk.Run, c TruncCase) *vk.Fail {
 	if c.HasTrail {
 		opts["trail"] = string(c.Trail)
 	}
+	class := ""
 	var res vk.Res
-	if c.ViaTmpl {
-		ctx := plush.NewContextWith(map[string]interface{}{"s": s, "opts": opts})
-		res = vk.Safe(func() (string, error) { return plush.Render(`<%= raw(truncate(s, opts)) %>`, ctx) })
-	} else {
-		res = vk.Safe(func() (string, error) { return text.Truncate(s, opts), nil })
+	render := func(src string, data map[string]interface{}) vk.Res {
+		return vk.Safe(func() (string, error) { return plush.Render(src, plush.NewContextWith(data)) })
+	}
+	switch c.Route {
+	case "":
+		if c.ViaTmpl {
+			res = render(`<%= raw(truncate(s, opts)) %>`, map[string]interface{}{"s": s, "opts": opts})
+		} else {
+			res = vk.Safe(func() (string, error) { return text.Truncate(s, opts), nil })
+		}
+	case "nil", "tmpl-none", "tmpl-nil":
+		if c.HasSize || c.HasTrail {
+			return &vk.Fail{Kind: "decode", Msg: "route " + c.Route + " carries no options"}
+		}
+		switch c.Route {
+		case "nil":
+			class = nilOptionsClass
+			res = vk.Safe(func() (string, error) { return text.Truncate(s, nil), nil })
+		case "tmpl-nil":
+			class = nilOptionsClass
+			res = render(`<%= raw(truncate(s, nil)) %>`, map[string]interface{}{"s": s})
+		default:
+			res = render(`<%= raw(truncate(s)) %>`, map[string]interface{}{"s": s})
+		}
+	case "tmpl-hash":
+		var parts []string
+		data := map[string]interface{}{"s": s}
+		if c.HasSize {
+			parts = append(parts, "size: n")
+			data["n"] = c.Size
+		}
+		if c.HasTrail {
+			parts = append(parts, `"trail": t`)
+			data["t"] = string(c.Trail)
+		}
+		res = render(`<%= raw(truncate(s, {`+strings.Join(parts, ", ")+`})) %>`, data)
+	case "tmpl-gomap":
+		res = render(`<%= raw(truncate(s, opts)) %>`, map[string]interface{}{"s": s, "opts": map[string]interface{}(opts)})
+	default:
+		return &vk.Fail{Kind: "decode", Msg: "unknown route " + c.Route}
 	}
 	fail := func(f string, a ...interface{}) *vk.Fail {
-		return &vk.Fail{Kind: "truncate", Case: c, Msg: fmt.Sprintf("truncate(%q, size=%d trail=%q): ", s, size, trail) + fmt.Sprintf(f, a...)}
+		return &vk.Fail{Kind: "truncate", Class: class, Case: c, Msg: fmt.Sprintf("truncate(%q, size=%d trail=%q) route=%q: ", s, size, trail, c.Route) + fmt.Sprintf(f, a...)}
 	}
+	nt := ""
+	if runeLen(s) > size {
+		nt = fmt.Sprintf("T|%q|%d|%q|%v|%s", s, size, trail, c.ViaTmpl, c.Route)
+	}
+	cls := "truncate"
+	if c.Route != "" {
+		cls = "truncate/" + c.Route
+	}
+	r.Count(nt, cls)
 	if res.Panicked() || res.Err != nil {
 		return fail("%s", res)
 	}
 	got := res.Out
-	rs, rt, rg := []rune(s), []rune(trail), []rune(got)
-	nt := ""
-	if len(rs) > size {
-		nt = fmt.Sprintf("T|%q|%d|%q|%v", s, size, trail, c.ViaTmpl)
-	}
-	r.Count(nt, "truncate")
 	if nt != "" {
 		r.Sample(func() interface{} {
 			return map[string]interface{}{"helper": "truncate", "case": c, "result": vk.Text(got)}
 		})
 	}
-	if len(rs) <= size {
-		if got != s {
-			return fail("string has %d <= size characters but came back changed: %q", len(rs), got)
-		}
-		return nil
-	}
-	bound := size
-	if len(rt) > bound {
-		bound = len(rt)
-	}
-	if len(rg) > bound {
-		return fail("result %q has %d characters > max(size, len(trail)) = %d", got, len(rg), bound)
-	}
-	if len(rg) < len(rt) || string(rg[len(rg)-len(rt):]) != string(rt) {
-		return fail("result %q does not end with the trail", got)
-	}
-	k := len(rg) - len(rt)
-	if k > len(rs) || string(rg[:k]) != string(rs[:k]) {
-		return fail("result %q is not (prefix of s)+trail in rune space", got)
-	}
-	if utf8.ValidString(s) && utf8.ValidString(trail) {
-		if !utf8.ValidString(got) {
-			return fail("valid UTF-8 in, invalid UTF-8 out: %q (a multi-byte character was split)", got)
-		}
-		head := got[:len(got)-len(trail)]
-		if !strings.HasPrefix(s, head) {
-			return fail("head %q of the result is not a byte prefix of s", head)
-		}
+	if msg := truncOracle(s, size, trail, got); msg != "" {
+		return fail("%s", msg)
 	}
 	return nil
+}
+
+// TruncSeqCase: ONE options map object serves several calls; between the calls its owner changes it (sets or
+// deletes size / trail). Every call must behave as the statement says for the options the owner has given at
+// that moment: nothing a previous call did with the map, and nothing remembered about the map, may show.
+type TruncStep struct {
+	S     vk.Text `json:"s"`
+	Op    string  `json:"op,omitempty"` // before the call: "", size, trail, del-size, del-trail
+	Size  int     `json:"size,omitempty"`
+	Trail vk.Text `json:"trail,omitempty"`
+}
+
+type TruncSeqCase struct {
+	HasSize  bool        `json:"has_size"`
+	Size     int         `json:"size"`
+	HasTrail bool        `json:"has_trail"`
+	Trail    vk.Text     `json:"trail"`
+	Steps    []TruncStep `json:"steps"`
+	Mode     string      `json:"mode"` // direct | tmpl (ops are index assignments in the template) | loop (for over the strings, no ops)
+}
+
+func checkTruncSeq(r *vk.Run, c TruncSeqCase) *vk.Fail {
+	defer r.Watch("truncseq", c)()
+	fail := func(f string, a ...interface{}) *vk.Fail {
+		return &vk.Fail{Kind: "truncseq", Case: c, Msg: fmt.Sprintf(f, a...)}
+	}
+	opts := hctx.Map{}
+	hasSize, size, hasTrail, trail := c.HasSize, c.Size, c.HasTrail, string(c.Trail)
+	if hasSize {
+		opts["size"] = size
+	}
+	if hasTrail {
+		opts["trail"] = trail
+	}
+	key, _ := json.Marshal(c)
+	nt := ""
+	if len(c.Steps) >= 2 {
+		nt = "TS|" + string(key)
+	}
+	r.Count(nt, "truncseq/"+c.Mode)
+	eff := func() (int, string) {
+		es, et := 50, "..."
+		if hasSize {
+			es = size
+		}
+		if hasTrail {
+			et = trail
+		}
+		return es, et
+	}
+	var want []string
+	var tmpl strings.Builder
+	data := map[string]interface{}{"o": opts}
+	var xs []string
+	for i, st := range c.Steps {
+		switch st.Op {
+		case "":
+		case "size":
+			hasSize, size = true, st.Size
+		case "trail":
+			hasTrail, trail = true, string(st.Trail)
+		case "del-size":
+			hasSize = false
+		case "del-trail":
+			hasTrail = false
+		default:
+			return &vk.Fail{Kind: "decode", Msg: "unknown op " + st.Op}
+		}
+		if st.Op != "" && c.Mode == "loop" || strings.HasPrefix(st.Op, "del-") && c.Mode != "direct" {
+			return &vk.Fail{Kind: "decode", Msg: "op " + st.Op + " cannot be spelled in mode " + c.Mode}
+		}
+		es, et := eff()
+		s := string(st.S)
+		if c.Mode == "direct" {
+			switch st.Op {
+			case "size":
+				opts["size"] = st.Size
+			case "trail":
+				opts["trail"] = string(st.Trail)
+			case "del-size":
+				delete(opts, "size")
+			case "del-trail":
+				delete(opts, "trail")
+			}
+			res := vk.Safe(func() (string, error) { return text.Truncate(s, opts), nil })
+			if res.Panicked() || res.Err != nil {
+				return fail("call %d truncate(%q): %s", i, s, res)
+			}
+			if msg := truncOracle(s, es, et, res.Out); msg != "" {
+				return fail("call %d of %d on one options map, truncate(%q, size=%d trail=%q): %s", i, len(c.Steps), s, es, et, msg)
+			}
+			continue
+		}
+		// the same call made alone, with a map of its own, judged by the statement
+		alone := hctx.Map{}
+		if hasSize {
+			alone["size"] = size
+		}
+		if hasTrail {
+			alone["trail"] = trail
+		}
+		res := vk.Safe(func() (string, error) { return text.Truncate(s, alone), nil })
+		if res.Panicked() || res.Err != nil {
+			return fail("call %d alone truncate(%q): %s", i, s, res)
+		}
+		if msg := truncOracle(s, es, et, res.Out); msg != "" {
+			return fail("call %d alone, truncate(%q, size=%d trail=%q): %s", i, s, es, et, msg)
+		}
+		want = append(want, res.Out)
+		xs = append(xs, s)
+		switch st.Op {
+		case "size":
+			data[fmt.Sprintf("n%d", i)] = st.Size
+			fmt.Fprintf(&tmpl, `<%% o["size"] = n%d %%>`, i)
+		case "trail":
+			data[fmt.Sprintf("t%d", i)] = string(st.Trail)
+			fmt.Fprintf(&tmpl, `<%% o["trail"] = t%d %%>`, i)
+		}
+		data[fmt.Sprintf("s%d", i)] = s
+		fmt.Fprintf(&tmpl, `<%%= raw(truncate(s%d, o)) %%>|`, i)
+	}
+	if c.Mode == "direct" {
+		return nil
+	}
+	src := tmpl.String()
+	switch c.Mode {
+	case "tmpl":
+	case "loop":
+		src = `<%= for (x) in xs { %><%= raw(truncate(x, o)) %>|<% } %>`
+		data["xs"] = xs
+	default:
+		return &vk.Fail{Kind: "decode", Msg: "unknown mode " + c.Mode}
+	}
+	res := vk.Safe(func() (string, error) { return plush.Render(src, plush.NewContextWith(data)) })
+	if nt != "" {
+		r.Sample(func() interface{} { return map[string]interface{}{"case": c, "template": src, "result": res.String()} })
+	}
+	if res.Panicked() || res.Err != nil {
+		return fail("%s: %s", src, res)
+	}
+	if exp := strings.Join(want, "|") + "|"; res.Out != exp {
+		return fail("%s rendered %q; the calls made one by one give %q", src, res.Out, exp)
+	}
+	return nil
+}
+
+func genTruncSeq(t *rapid.T) TruncSeqCase {
+	c := TruncSeqCase{Mode: rapid.SampledFrom([]string{"direct", "direct", "tmpl", "loop"}).Draw(t, "mode")}
+	if c.HasSize = rapid.Bool().Draw(t, "hs"); c.HasSize {
+		c.Size = rapid.IntRange(-2, 70).Draw(t, "size")
+	}
+	if c.HasTrail = rapid.Bool().Draw(t, "ht"); c.HasTrail {
+		c.Trail = vk.Text(shortTrail(t, "trail"))
+	}
+	ops := []string{"", "", "size", "trail"}
+	if c.Mode == "direct" {
+		ops = append(ops, "del-size", "del-trail")
+	}
+	if c.Mode == "loop" {
+		ops = []string{""}
+	}
+	for i, n := 0, rapid.IntRange(2, 5).Draw(t, "calls"); i < n; i++ {
+		st := TruncStep{S: vk.Text(gen.Payload(t, "s") + gen.Payload(t, "s2"))}
+		if i > 0 {
+			st.Op = rapid.SampledFrom(ops).Draw(t, "op")
+		}
+		switch st.Op {
+		case "size":
+			st.Size = rapid.IntRange(-2, 70).Draw(t, "nsize")
+		case "trail":
+			st.Trail = vk.Text(shortTrail(t, "ntrail"))
+		}
+		c.Steps = append(c.Steps, st)
+	}
+	return c
+}
+
+func shortTrail(t *rapid.T, label string) string {
+	tr := []rune(gen.Payload(t, label))
+	if len(tr) > 8 {
+		tr = tr[:8]
+	}
+	return string(tr)
 }
 
 // ---- escapers ---------------------------------------------------------------
@@ -122,7 +366,24 @@ type StrCase struct {
 	S       vk.Text `json:"s"`
 	ViaTmpl bool    `json:"via_template"`
 	Block   bool    `json:"block,omitempty"`
+	// Wrap (template route only, not with Block): where in the template the call stands.
+	//   if | ifreturn | for | let | fn | index | hash | content (contentFor + contentOf)
+	Wrap string `json:"wrap,omitempty"`
 }
+
+// strWraps: template shapes around the emitting expression E (which prints the helper's result unescaped)
+var strWraps = map[string]string{
+	"if":       `<%= if (yes) { %><%= E %><% } %>`,
+	"ifreturn": `<%= if (yes) { return E } %>`,
+	"for":      `<%= for (s) in one { %><%= E %><% } %>`,
+	"let":      `<% let held = E %><%= held %>`,
+	"fn":       `<% let f = fn(s) { return E } %><%= f(s) %>`,
+	"index":    `<%= [E][0] %>`,
+	"hash":     `<%= {"k": E}["k"] %>`,
+	"content":  `<% contentFor("slot") { %><%= E %><% } %><%= contentOf("slot") %>`,
+}
+
+var strWrapNames = []string{"if", "ifreturn", "for", "let", "fn", "index", "hash", "content"}
 
 var charRef = regexp.MustCompile(`^&(#[0-9]+|#[xX][0-9a-fA-F]+|[a-zA-Z][a-zA-Z0-9]*);`)
 
@@ -134,9 +395,21 @@ func checkStr(r *vk.Run, c StrCase) *vk.Fail {
 	}
 	var res vk.Res
 	ctx := func() *plush.Context { return plush.NewContextWith(map[string]interface{}{"s": s}) }
+	if c.Wrap != "" {
+		shape, ok := strWraps[c.Wrap]
+		e := map[string]string{"htmlEscape": "raw(htmlEscape(s))", "jsEscape": "raw(jsEscape(s))", "raw": "raw(s)"}[c.Helper]
+		if !ok || e == "" || c.Block || !c.ViaTmpl {
+			return &vk.Fail{Kind: "decode", Msg: "bad wrap " + c.Wrap}
+		}
+		src := strings.ReplaceAll(shape, "E", e)
+		res = vk.Safe(func() (string, error) {
+			return plush.Render(src, plush.NewContextWith(map[string]interface{}{"s": s, "one": []string{s}, "yes": true}))
+		})
+	}
 	switch c.Helper {
 	case "htmlEscape":
 		switch {
+		case c.Wrap != "": // rendered above
 		case c.ViaTmpl && c.Block:
 			res = vk.Safe(func() (string, error) { return plush.Render(`<%= raw(htmlEscape("") { %><%= raw(s) %><% }) %>`, ctx()) })
 		case c.ViaTmpl:
@@ -149,15 +422,19 @@ func checkStr(r *vk.Run, c StrCase) *vk.Fail {
 			res = vk.Safe(func() (string, error) { return escapes.HTMLEscape(s, helptest.NewContext()) })
 		}
 	case "jsEscape":
-		if c.ViaTmpl {
+		switch {
+		case c.Wrap != "": // rendered above
+		case c.ViaTmpl:
 			res = vk.Safe(func() (string, error) { return plush.Render(`<%= raw(jsEscape(s)) %>`, ctx()) })
-		} else {
+		default:
 			res = vk.Safe(func() (string, error) { return escapes.JSEscape(s), nil })
 		}
 	case "raw":
-		if c.ViaTmpl {
+		switch {
+		case c.Wrap != "": // rendered above
+		case c.ViaTmpl:
 			res = vk.Safe(func() (string, error) { return plush.Render(`<%= raw(s) %>`, ctx()) })
-		} else {
+		default:
 			res = vk.Safe(func() (string, error) { return string(encoders.Raw(s)), nil })
 		}
 	default:
@@ -169,34 +446,178 @@ func checkStr(r *vk.Run, c StrCase) *vk.Fail {
 	out := res.Out
 	nt := ""
 	if strings.ContainsAny(s, "<>&'\"=\n\r\\") || strings.Contains(s, "\u2028") || strings.Contains(s, "\u2029") || !utf8.ValidString(s) {
-		nt = fmt.Sprintf("S|%s|%q|%v|%v", c.Helper, s, c.ViaTmpl, c.Block)
+		nt = fmt.Sprintf("S|%s|%q|%v|%v|%s", c.Helper, s, c.ViaTmpl, c.Block, c.Wrap)
 	}
-	r.Count(nt, c.Helper)
+	if c.Wrap != "" {
+		r.Count(nt, c.Helper+"/"+c.Wrap)
+	} else {
+		r.Count(nt, c.Helper)
+	}
 	if nt != "" {
 		r.Sample(func() interface{} { return map[string]interface{}{"case": c, "result": vk.Text(out)} })
 	}
-	switch c.Helper {
+	if msg := strOracle(c.Helper, s, out); msg != "" {
+		return fail("%s", msg)
+	}
+	return nil
+}
+
+// jsDecodeBack: also demand that the jsEscape output, read as the body of a JavaScript string literal, gives the
+// input back (the statement lists only what the output must not contain; that an escaper keeps the text is the
+// same assumption the htmlEscape decode-back rests on). Set to false to assert the listed predicates only.
+const jsDecodeBack = true
+
+// jsUnescape reads s as the body of a JavaScript string literal (every escape form of the language: single
+// character escapes, \0, \xHH, \uHHHH, \u{H..}, line continuations, and a backslash before any other character
+// standing for that character). ok=false when an escape is malformed.
+func jsUnescape(s string) (string, bool) {
+	var sb strings.Builder
+	hex := func(h string) (rune, bool) {
+		if h == "" {
+			return 0, false
+		}
+		var v rune
+		for _, c := range h {
+			switch {
+			case c >= '0' && c <= '9':
+				v = v<<4 | (c - '0')
+			case c >= 'a' && c <= 'f':
+				v = v<<4 | (c - 'a' + 10)
+			case c >= 'A' && c <= 'F':
+				v = v<<4 | (c - 'A' + 10)
+			default:
+				return 0, false
+			}
+			if v > 0x10ffff {
+				return 0, false
+			}
+		}
+		return v, true
+	}
+	var pendingHi rune // a \uD8xx waiting for its low half
+	flush := func() {
+		if pendingHi != 0 {
+			sb.WriteRune(utf8.RuneError)
+			pendingHi = 0
+		}
+	}
+	for i := 0; i < len(s); {
+		if s[i] != '\\' {
+			flush()
+			sb.WriteByte(s[i])
+			i++
+			continue
+		}
+		if i+1 >= len(s) {
+			return "", false
+		}
+		c := s[i+1]
+		i += 2
+		var rn rune
+		switch c {
+		case 'b':
+			rn = '\b'
+		case 'f':
+			rn = '\f'
+		case 'n':
+			rn = '\n'
+		case 'r':
+			rn = '\r'
+		case 't':
+			rn = '\t'
+		case 'v':
+			rn = '\v'
+		case '0':
+			if i < len(s) && s[i] >= '0' && s[i] <= '9' {
+				return "", false // legacy octal: not produced by any sane escaper, not decoded here
+			}
+			rn = 0
+		case 'x':
+			if i+2 > len(s) {
+				return "", false
+			}
+			v, ok := hex(s[i : i+2])
+			if !ok {
+				return "", false
+			}
+			rn, i = v, i+2
+		case 'u':
+			if i < len(s) && s[i] == '{' {
+				j := strings.IndexByte(s[i:], '}')
+				if j < 0 {
+					return "", false
+				}
+				v, ok := hex(s[i+1 : i+j])
+				if !ok {
+					return "", false
+				}
+				rn, i = v, i+j+1
+			} else {
+				if i+4 > len(s) {
+					return "", false
+				}
+				v, ok := hex(s[i : i+4])
+				if !ok {
+					return "", false
+				}
+				rn, i = v, i+4
+				if v >= 0xd800 && v < 0xdc00 {
+					flush()
+					pendingHi = v
+					continue
+				}
+				if v >= 0xdc00 && v < 0xe000 && pendingHi != 0 {
+					rn = 0x10000 + (pendingHi-0xd800)<<10 + (v - 0xdc00)
+					pendingHi = 0
+				}
+			}
+		case '\n':
+			continue // line continuation
+		case '\r':
+			if i < len(s) && s[i] == '\n' {
+				i++
+			}
+			continue
+		default:
+			// a backslash before any other character stands for that character (possibly multi-byte)
+			flush()
+			_, w := utf8.DecodeRuneInString(s[i-1:])
+			sb.WriteString(s[i-1 : i-1+w])
+			i += w - 1
+			continue
+		}
+		flush()
+		sb.WriteRune(rn)
+	}
+	flush()
+	return sb.String(), true
+}
+
+// strOracle is the htmlEscape / jsEscape / raw sentence of the statement; "" when out is allowed for input s
+func strOracle(helper, s, out string) string {
+	switch helper {
 	case "htmlEscape":
 		if i := strings.IndexAny(out, "<>'\""); i >= 0 {
-			return fail("output %q contains raw %q", out, out[i])
+			return fmt.Sprintf("output %q contains raw %q", out, out[i])
 		}
 		for i := 0; i < len(out); i++ {
 			if out[i] == '&' && !charRef.MatchString(out[i:]) {
-				return fail("output %q has an & at %d that does not start a character reference", out, i)
+				return fmt.Sprintf("output %q has an & at %d that does not start a character reference", out, i)
 			}
 		}
-		// NUL has no representation in HTML text (a NUL character reference is invalid): an escaper may replace it
-		// (html/template writes U+FFFD) or drop it; every other character must come back
+		// NUL is none of the five characters and has no character reference (a NUL reference is invalid): an escaper
+		// may keep it (html.EscapeString does), replace it (html/template writes U+FFFD) or drop it; every other
+		// character must come back
 		dec := html.UnescapeString(out)
-		if dec != strings.ReplaceAll(s, "\x00", "\ufffd") && dec != strings.ReplaceAll(s, "\x00", "") {
-			return fail("output %q decodes to %q, not to the input", out, dec)
+		if dec != s && dec != strings.ReplaceAll(s, "\x00", "\ufffd") && dec != strings.ReplaceAll(s, "\x00", "") {
+			return fmt.Sprintf("output %q decodes to %q, not to the input", out, dec)
 		}
 	case "jsEscape":
 		if i := strings.IndexAny(out, "<>&="); i >= 0 {
-			return fail("output %q contains raw %q", out, out[i])
+			return fmt.Sprintf("output %q contains raw %q", out, out[i])
 		}
 		if strings.ContainsAny(out, "\n\r") || strings.Contains(out, "\u2028") || strings.Contains(out, "\u2029") {
-			return fail("output %q contains a raw line break", out)
+			return fmt.Sprintf("output %q contains a raw line break", out)
 		}
 		for i := 0; i < len(out); i++ {
 			if out[i] == '\'' || out[i] == '"' {
@@ -205,16 +626,27 @@ func checkStr(r *vk.Run, c StrCase) *vk.Fail {
 					n++
 				}
 				if n%2 == 0 {
-					return fail("output %q has an unescaped quote at %d", out, i)
+					return fmt.Sprintf("output %q has an unescaped quote at %d", out, i)
 				}
+			}
+		}
+		if jsDecodeBack {
+			// bytes that are not valid UTF-8 have no spelling in a JavaScript string, and what they should read as is not
+			// stated: decode-back is demanded of valid text only
+			dec, ok := jsUnescape(out)
+			if !ok {
+				return fmt.Sprintf("output %q is not a well-formed JavaScript string body", out)
+			}
+			if utf8.ValidString(s) && dec != s {
+				return fmt.Sprintf("output %q reads as %q in a JavaScript string, not as the input", out, dec)
 			}
 		}
 	case "raw":
 		if out != s {
-			return fail("raw output %q is not byte-identical to the input", out)
+			return fmt.Sprintf("raw output %q is not byte-identical to the input", out)
 		}
 	}
-	return nil
+	return ""
 }
 
 // ---- toJSON -----------------------------------------------------------------
@@ -224,11 +656,76 @@ type JSONCase struct {
 	// this is its canonical encoding; replay decodes it back)
 	Doc     string `json:"doc"`
 	ViaTmpl bool   `json:"via_template"`
+	// Lit: the value is spelled as a plush literal inside the tag (<%= toJSON([1, "a<b", {"k": nil}]) %>) instead
+	// of being passed in the context; only for values plushLit can spell
+	Lit bool `json:"literal,omitempty"`
+}
+
+// plushLit spells a JSON value as a plush literal: integral numbers 0..2^31 as int literals, other numbers as plain
+// decimals, strings without quote, backslash, percent sign, line break or control character. ok=false when the
+// value has no such spelling (negative numbers: plush has no negative literal; exponents; hostile strings).
+func plushLit(v interface{}) (string, bool) {
+	switch t := v.(type) {
+	case nil:
+		return "nil", true
+	case bool:
+		return fmt.Sprint(t), true
+	case float64:
+		if t < 0 || t >= 1<<31 || math.IsNaN(t) {
+			return "", false
+		}
+		if t == math.Trunc(t) {
+			return fmt.Sprintf("%d", int64(t)), true
+		}
+		sp := fmt.Sprintf("%v", t)
+		if strings.ContainsAny(sp, "eE") || !strings.Contains(sp, ".") {
+			return "", false
+		}
+		return sp, true
+	case string:
+		for _, c := range t {
+			if c == '"' || c == '\\' || c == '%' || c < 0x20 || c == 0x7f || c == '\u2028' || c == '\u2029' || c == utf8.RuneError || c == '\ufeff' {
+				return "", false
+			}
+		}
+		return `"` + t + `"`, true
+	case []interface{}:
+		parts := make([]string, len(t))
+		for i := range t {
+			sp, ok := plushLit(t[i])
+			if !ok {
+				return "", false
+			}
+			parts[i] = sp
+		}
+		return "[" + strings.Join(parts, ", ") + "]", true
+	case map[string]interface{}:
+		keys := make([]string, 0, len(t))
+		for k := range t {
+			keys = append(keys, k)
+		}
+		sort.Strings(keys)
+		parts := make([]string, len(keys))
+		for i, k := range keys {
+			ks, ok1 := plushLit(k)
+			vs, ok2 := plushLit(t[k])
+			if !ok1 || !ok2 {
+				return "", false
+			}
+			parts[i] = ks + ": " + vs
+		}
+		return "{" + strings.Join(parts, ", ") + "}", true
+	}
+	return "", false
 }
 
 func checkJSON(r *vk.Run, v interface{}, viaTmpl bool) *vk.Fail {
+	return checkJSONCase(r, v, viaTmpl, false)
+}
+
+func checkJSONCase(r *vk.Run, v interface{}, viaTmpl, lit bool) *vk.Fail {
 	canon, _ := json.Marshal(v)
-	c := JSONCase{Doc: string(canon), ViaTmpl: viaTmpl}
+	c := JSONCase{Doc: string(canon), ViaTmpl: viaTmpl, Lit: lit}
 	defer r.Watch("json", c)()
 	fail := func(f string, a ...interface{}) *vk.Fail {
 		return &vk.Fail{Kind: "json", Case: c, Msg: fmt.Sprintf("toJSON(%s): ", canon) + fmt.Sprintf(f, a...)}
@@ -240,6 +737,13 @@ func checkJSON(r *vk.Run, v interface{}, viaTmpl bool) *vk.Fail {
 		if v == nil {
 			src = `<%= toJSON(nil) %>` // a nil context value is an unset name; spell it as the literal
 		}
+		if lit {
+			sp, ok := plushLit(v)
+			if !ok {
+				return &vk.Fail{Kind: "decode", Msg: "value has no plush literal spelling"}
+			}
+			src = `<%= toJSON(` + sp + `) %>`
+		}
 		res = vk.Safe(func() (string, error) { return plush.Render(src, ctx) })
 	} else {
 		res = vk.Safe(func() (string, error) { h, err := encoders.ToJSON(v); return string(h), err })
@@ -250,28 +754,40 @@ func checkJSON(r *vk.Run, v interface{}, viaTmpl bool) *vk.Fail {
 	out := res.Out
 	nt := ""
 	if bytes.ContainsAny(canon, "<>&\\{[") || bytes.Contains(canon, []byte(`\u00`)) {
-		nt = fmt.Sprintf("J|%s|%v", canon, viaTmpl)
+		nt = fmt.Sprintf("J|%s|%v|%v", canon, viaTmpl, lit)
 	}
-	r.Count(nt, "toJSON")
+	if lit {
+		r.Count(nt, "toJSON/literal")
+	} else {
+		r.Count(nt, "toJSON")
+	}
 	if nt != "" {
 		r.Sample(func() interface{} {
 			return map[string]interface{}{"helper": "toJSON", "value": string(canon), "via_template": viaTmpl, "result": out}
 		})
 	}
+	if msg := jsonOracle(v, out); msg != "" {
+		return fail("%s", msg)
+	}
+	return nil
+}
+
+// jsonOracle is the toJSON sentence of the statement for a value a JSON decoder builds; "" when out is allowed
+func jsonOracle(v interface{}, out string) string {
 	if !json.Valid([]byte(out)) {
-		return fail("output %q is not valid JSON", out)
+		return fmt.Sprintf("output %q is not valid JSON", out)
 	}
 	if i := strings.IndexAny(out, "<>&"); i >= 0 {
-		return fail("output %q contains raw %q", out, out[i])
+		return fmt.Sprintf("output %q contains raw %q", out, out[i])
 	}
 	var back interface{}
 	if err := json.Unmarshal([]byte(out), &back); err != nil {
-		return fail("output %q does not decode: %v", out, err)
+		return fmt.Sprintf("output %q does not decode: %v", out, err)
 	}
 	if !reflect.DeepEqual(norm(back), norm(v)) {
-		return fail("output %q decodes to %#v, not to the input %#v", out, back, v)
+		return fmt.Sprintf("output %q decodes to %#v, not to the input %#v", out, back, v)
 	}
-	return nil
+	return ""
 }
 
 // norm maps empty slices/maps and nil slices/maps to one representative so that
@@ -329,6 +845,641 @@ func genJSON(t *rapid.T, depth int) interface{} {
 	}
 }
 
+// ---- toJSON of typed Go values --------------------------------------------------
+
+// TypedCase: a JSON-representable value of a concrete Go type (not only the interface{} trees a decoder builds):
+// integers of every width at their extremes, float32, json.Number, named string types, []byte, typed slices,
+// arrays and maps, maps with non-string keys, structs with tags, embedded structs and pointers, values with their
+// own MarshalJSON / MarshalText, json.RawMessage. The value is rebuilt from Doc by decoding it into the type
+// named by Type (for "raw": Doc IS the value, byte for byte), so a case replays from its JSON form.
+type TypedCase struct {
+	Type    string `json:"type"`
+	Doc     string `json:"doc"`
+	ViaTmpl bool   `json:"via_template"`
+}
+
+type Inner struct {
+	Label string            `json:"label"`
+	Attrs map[string]string `json:"attrs,omitempty"`
+}
+
+type Rec struct {
+	Name  string        `json:"name"`
+	Tags  []string      `json:"tags"`
+	N     int64         `json:"n"`
+	U     uint64        `json:"u,omitempty"`
+	F     float32       `json:"f"`
+	H     template.HTML `json:"h"`
+	B     []byte        `json:"b,omitempty"`
+	Next  *Rec          `json:"next,omitempty"`
+	Inner               // embedded: its fields are promoted
+	Plain string        // no tag
+}
+
+// wrapM has its own MarshalJSON, which does NOT escape < > & (the encoder has to, when it embeds the result)
+type wrapM struct{ S string }
+
+func (w wrapM) MarshalJSON() ([]byte, error) {
+	var sb bytes.Buffer
+	enc := json.NewEncoder(&sb)
+	enc.SetEscapeHTML(false)
+	if err := enc.Encode(map[string]string{"w": w.S}); err != nil {
+		return nil, err
+	}
+	return sb.Bytes(), nil
+}
+
+func (w *wrapM) UnmarshalJSON(b []byte) error {
+	var m map[string]string
+	if err := json.Unmarshal(b, &m); err != nil {
+		return err
+	}
+	w.S = m["w"]
+	return nil
+}
+
+// tkey is a map key with its own MarshalText
+type tkey struct{ K string }
+
+func (k tkey) MarshalText() ([]byte, error) { return []byte("k:" + k.K), nil }
+func (k *tkey) UnmarshalText(b []byte) error {
+	k.K = strings.TrimPrefix(string(b), "k:")
+	return nil
+}
+
+var typeReg = map[string]reflect.Type{
+	"int":     reflect.TypeOf(int(0)),
+	"int8":    reflect.TypeOf(int8(0)),
+	"int32":   reflect.TypeOf(int32(0)),
+	"int64":   reflect.TypeOf(int64(0)),
+	"uint":    reflect.TypeOf(uint(0)),
+	"uint8":   reflect.TypeOf(uint8(0)),
+	"uint64":  reflect.TypeOf(uint64(0)),
+	"float32": reflect.TypeOf(float32(0)),
+	"float64": reflect.TypeOf(float64(0)),
+	"number":  reflect.TypeOf(json.Number("")),
+	"string":  reflect.TypeOf(""),
+	"html":    reflect.TypeOf(template.HTML("")),
+	"bytes":   reflect.TypeOf([]byte(nil)),
+	"strs":    reflect.TypeOf([]string(nil)),
+	"strs2":   reflect.TypeOf([][]string(nil)),
+	"htmls":   reflect.TypeOf([]template.HTML(nil)),
+	"ints":    reflect.TypeOf([]int64(nil)),
+	"uints":   reflect.TypeOf([]uint64(nil)),
+	"arr":     reflect.TypeOf([3]string{}),
+	"mss":     reflect.TypeOf(map[string]string(nil)),
+	"mis":     reflect.TypeOf(map[int]string(nil)),
+	"msints":  reflect.TypeOf(map[string][]int(nil)),
+	"rec":     reflect.TypeOf(Rec{}),
+	"prec":    reflect.TypeOf((*Rec)(nil)),
+	"recs":    reflect.TypeOf([]Rec(nil)),
+	"pstr":    reflect.TypeOf((*string)(nil)),
+	"ppstr":   reflect.TypeOf((**string)(nil)),
+	"marsh":   reflect.TypeOf(wrapM{}),
+	"marshs":  reflect.TypeOf([]wrapM(nil)),
+	"tkeys":   reflect.TypeOf(map[tkey]string(nil)),
+	"any":     reflect.TypeOf((*interface{})(nil)).Elem(),
+	"raw":     reflect.TypeOf(json.RawMessage(nil)),
+}
+
+var typeNames = func() []string {
+	var out []string
+	for k := range typeReg {
+		out = append(out, k)
+	}
+	sort.Strings(out)
+	return out
+}()
+
+// semJSON decodes a document with numbers kept as their text, for comparing meaning
+func semJSON(doc []byte) (interface{}, error) {
+	dec := json.NewDecoder(bytes.NewReader(doc))
+	dec.UseNumber()
+	var v interface{}
+	if err := dec.Decode(&v); err != nil {
+		return nil, err
+	}
+	if dec.More() {
+		return nil, fmt.Errorf("trailing data")
+	}
+	return v, nil
+}
+
+func checkTyped(r *vk.Run, c TypedCase) *vk.Fail {
+	defer r.Watch("typed", c)()
+	fail := func(f string, a ...interface{}) *vk.Fail {
+		return &vk.Fail{Kind: "typed", Case: c, Msg: fmt.Sprintf("toJSON(%s %s): ", c.Type, c.Doc) + fmt.Sprintf(f, a...)}
+	}
+	typ, ok := typeReg[c.Type]
+	if !ok {
+		return &vk.Fail{Kind: "decode", Msg: "unknown type " + c.Type}
+	}
+	var v interface{}
+	if c.Type == "raw" {
+		if !json.Valid([]byte(c.Doc)) {
+			return &vk.Fail{Kind: "decode", Msg: "raw document is not JSON"}
+		}
+		v = json.RawMessage(c.Doc)
+	} else {
+		pv := reflect.New(typ)
+		if err := json.Unmarshal([]byte(c.Doc), pv.Interface()); err != nil {
+			return &vk.Fail{Kind: "decode", Msg: err.Error()}
+		}
+		v = pv.Elem().Interface()
+	}
+	// the reference spelling of the value (encoding/json is the trusted reference coder, as in checkJSON)
+	canon, err := json.Marshal(v)
+	if err != nil {
+		return &vk.Fail{Kind: "decode", Msg: "value is not JSON-representable: " + err.Error()}
+	}
+	var res vk.Res
+	if c.ViaTmpl {
+		src := `<%= toJSON(v) %>`
+		if v == nil {
+			src = `<%= toJSON(nil) %>` // a nil context value is an unset name; spell it as the literal
+		}
+		res = vk.Safe(func() (string, error) { return plush.Render(src, plush.NewContextWith(map[string]interface{}{"v": v})) })
+	} else {
+		res = vk.Safe(func() (string, error) { h, err := encoders.ToJSON(v); return string(h), err })
+	}
+	nt := fmt.Sprintf("JT|%s|%s|%v", c.Type, canon, c.ViaTmpl)
+	r.Count(nt, "toJSON/typed")
+	r.Class("toJSON/typed/" + c.Type)
+	if res.Panicked() || res.Err != nil {
+		return fail("%s", res)
+	}
+	out := res.Out
+	r.Sample(func() interface{} { return map[string]interface{}{"helper": "toJSON", "case": c, "result": out} })
+	if !json.Valid([]byte(out)) {
+		return fail("output %q is not valid JSON", out)
+	}
+	if i := strings.IndexAny(out, "<>&"); i >= 0 {
+		return fail("output %q contains raw %q", out, out[i])
+	}
+	if c.Type == "raw" || c.Type == "any" {
+		// no Go type to decode into: compare meaning (numbers by their text)
+		got, err1 := semJSON([]byte(out))
+		want, err2 := semJSON(canon)
+		if err1 != nil || err2 != nil {
+			return fail("output %q does not decode: %v %v", out, err1, err2)
+		}
+		if !reflect.DeepEqual(norm(got), norm(want)) {
+			return fail("output %q decodes to %#v, not to the input %#v", out, got, want)
+		}
+		return nil
+	}
+	back := reflect.New(typ)
+	if err := json.Unmarshal([]byte(out), back.Interface()); err != nil {
+		return fail("output %q does not decode into %s: %v", out, typ, err)
+	}
+	if reflect.DeepEqual(back.Elem().Interface(), v) {
+		return nil
+	}
+	// DeepEqual separates what JSON does not (an omitted empty field decodes to nil): compare reference spellings
+	again, err := json.Marshal(back.Elem().Interface())
+	if err != nil || !bytes.Equal(again, canon) {
+		return fail("output %q decodes to %#v, not to the input %#v", out, back.Elem().Interface(), v)
+	}
+	return nil
+}
+
+var edgeInts = []int64{0, 1, -1, 127, -128, 255, 1 << 31, -(1 << 31), 1<<53 + 1, -(1<<53 + 1), math.MaxInt64, math.MinInt64}
+var edgeUints = []uint64{0, 1, 255, 1 << 32, 1<<53 + 1, math.MaxInt64, math.MaxInt64 + 1, math.MaxUint64}
+
+func validPayload(t *rapid.T, label string) string {
+	return strings.ToValidUTF8(gen.Payload(t, label), "�")
+}
+
+func genStrs(t *rapid.T, label string) []string {
+	n := rapid.IntRange(-1, 4).Draw(t, label+"_n")
+	if n < 0 {
+		return nil
+	}
+	out := make([]string, n)
+	for i := range out {
+		out[i] = validPayload(t, label)
+	}
+	return out
+}
+
+func genRec(t *rapid.T, depth int) Rec {
+	rec := Rec{Name: validPayload(t, "name"), Tags: genStrs(t, "tags"), N: rapid.SampledFrom(edgeInts).Draw(t, "n"),
+		U: rapid.SampledFrom(edgeUints).Draw(t, "u"), F: float32(rapid.Float32().Draw(t, "f")), H: template.HTML(validPayload(t, "h")),
+		Plain: validPayload(t, "plain"), Inner: Inner{Label: validPayload(t, "label")}}
+	if f := float64(rec.F); math.IsNaN(f) || math.IsInf(f, 0) {
+		rec.F = 0
+	}
+	if rapid.Bool().Draw(t, "hasB") {
+		rec.B = []byte(gen.Payload(t, "b"))
+	}
+	if rapid.Bool().Draw(t, "hasAttrs") {
+		rec.Attrs = map[string]string{validPayload(t, "ak"): validPayload(t, "av")}
+	}
+	if depth > 0 && rapid.Bool().Draw(t, "hasNext") {
+		nx := genRec(t, depth-1)
+		rec.Next = &nx
+	}
+	return rec
+}
+
+// genTyped builds a Go value of a drawn type and returns its case (the value is re-created from the case)
+func genTyped(t *rapid.T) TypedCase {
+	name := rapid.SampledFrom(typeNames).Draw(t, "type")
+	c := TypedCase{Type: name, ViaTmpl: rapid.IntRange(0, 3).Draw(t, "via") == 0}
+	si := func() int64 { return rapid.SampledFrom(edgeInts).Draw(t, "i") }
+	ui := func() uint64 { return rapid.SampledFrom(edgeUints).Draw(t, "u") }
+	var v interface{}
+	switch name {
+	case "int":
+		v = int(si())
+	case "int8":
+		v = int8(si())
+	case "int32":
+		v = int32(si())
+	case "int64":
+		v = si()
+	case "uint":
+		v = uint(ui())
+	case "uint8":
+		v = uint8(ui())
+	case "uint64":
+		v = ui()
+	case "float32":
+		f := rapid.Float32().Draw(t, "f")
+		if math.IsNaN(float64(f)) || math.IsInf(float64(f), 0) {
+			f = 0.1
+		}
+		v = f
+	case "float64":
+		f := rapid.Float64().Draw(t, "f")
+		if math.IsNaN(f) || math.IsInf(f, 0) {
+			f = 0.1
+		}
+		v = f
+	case "number":
+		v = json.Number(rapid.SampledFrom([]string{"0", "-0", "1", "18446744073709551616", "-9223372036854775809", "123456789012345678901234567890",
+			"0.1", "1e400", "-1.5E-7", "3.141592653589793238462643383279"}).Draw(t, "num"))
+	case "string":
+		v = validPayload(t, "s")
+	case "html":
+		v = template.HTML(validPayload(t, "s"))
+	case "bytes":
+		if rapid.IntRange(0, 5).Draw(t, "nilb") > 0 {
+			v = []byte(gen.Payload(t, "b"))
+		} else {
+			v = []byte(nil)
+		}
+	case "strs":
+		v = genStrs(t, "s")
+	case "strs2":
+		n := rapid.IntRange(0, 3).Draw(t, "n")
+		out := make([][]string, n)
+		for i := range out {
+			out[i] = genStrs(t, "s")
+		}
+		v = out
+	case "htmls":
+		var out []template.HTML
+		for _, s := range genStrs(t, "s") {
+			out = append(out, template.HTML(s))
+		}
+		v = out
+	case "ints":
+		n := rapid.IntRange(0, 4).Draw(t, "n")
+		out := make([]int64, n)
+		for i := range out {
+			out[i] = si()
+		}
+		v = out
+	case "uints":
+		n := rapid.IntRange(0, 4).Draw(t, "n")
+		out := make([]uint64, n)
+		for i := range out {
+			out[i] = ui()
+		}
+		v = out
+	case "arr":
+		v = [3]string{validPayload(t, "a0"), validPayload(t, "a1"), validPayload(t, "a2")}
+	case "mss":
+		n := rapid.IntRange(-1, 3).Draw(t, "n")
+		if n < 0 {
+			v = map[string]string(nil)
+			break
+		}
+		m := map[string]string{}
+		for i := 0; i < n; i++ {
+			m[validPayload(t, "k")] = validPayload(t, "v")
+		}
+		v = m
+	case "mis":
+		m := map[int]string{}
+		for i, n := 0, rapid.IntRange(0, 3).Draw(t, "n"); i < n; i++ {
+			m[int(si())] = validPayload(t, "v")
+		}
+		v = m
+	case "msints":
+		m := map[string][]int{}
+		for i, n := 0, rapid.IntRange(0, 3).Draw(t, "n"); i < n; i++ {
+			m[validPayload(t, "k")] = []int{int(si()), i}
+		}
+		v = m
+	case "rec":
+		v = genRec(t, 2)
+	case "prec":
+		if rapid.IntRange(0, 4).Draw(t, "nilp") == 0 {
+			v = (*Rec)(nil)
+		} else {
+			rec := genRec(t, 1)
+			v = &rec
+		}
+	case "recs":
+		n := rapid.IntRange(0, 3).Draw(t, "n")
+		out := make([]Rec, n)
+		for i := range out {
+			out[i] = genRec(t, 1)
+		}
+		v = out
+	case "pstr", "ppstr":
+		var p *string
+		if rapid.IntRange(0, 3).Draw(t, "nilp") > 0 {
+			s := validPayload(t, "s")
+			p = &s
+		}
+		if name == "pstr" {
+			v = p
+		} else {
+			v = &p
+		}
+	case "marsh":
+		v = wrapM{S: validPayload(t, "s")}
+	case "marshs":
+		var out []wrapM
+		for _, s := range genStrs(t, "s") {
+			out = append(out, wrapM{S: s})
+		}
+		v = out
+	case "tkeys":
+		m := map[tkey]string{}
+		for i, n := 0, rapid.IntRange(0, 3).Draw(t, "n"); i < n; i++ {
+			m[tkey{K: validPayload(t, "k")}] = validPayload(t, "v")
+		}
+		v = m
+	case "any":
+		v = genJSON(t, 2)
+	case "raw":
+		// a document spelled by hand: raw < > & inside strings, insignificant white space, numbers kept as text
+		inner, _ := json.Marshal(genJSON(t, 2))
+		var sb bytes.Buffer
+		enc := json.NewEncoder(&sb)
+		enc.SetEscapeHTML(false)
+		enc.SetIndent("", rapid.SampledFrom([]string{"", " ", "\t"}).Draw(t, "indent"))
+		enc.Encode(map[string]interface{}{"s": validPayload(t, "s"), "<k>&": json.RawMessage(inner), "n": json.Number("12345678901234567890")})
+		c.Doc = strings.TrimSpace(sb.String())
+		return c
+	}
+	b, err := json.Marshal(v)
+	if err != nil {
+		panic("harness: genTyped built an unrepresentable value: " + err.Error())
+	}
+	c.Doc = string(b)
+	return c
+}
+
+// ---- toJSON of ONE container that changes between the calls -------------------------
+
+// JSONSeqCase: one map or slice OBJECT is encoded several times; between the calls its owner rewrites it in place
+// (same map header, same backing array). Every call must encode what the object holds at that moment.
+type JSONSeqCase struct {
+	Kind string   `json:"kind"` // map | slice | strs
+	Docs []string `json:"docs"` // what the container holds at each call: JSON objects (map) or arrays (slice, strs)
+	Mode string   `json:"mode"` // direct | tmpl (one Render per call, the object in a fresh context) | assign (maps: one template, index assignments between the calls)
+}
+
+func checkJSONSeq(r *vk.Run, c JSONSeqCase) *vk.Fail {
+	defer r.Watch("jsonseq", c)()
+	fail := func(f string, a ...interface{}) *vk.Fail {
+		return &vk.Fail{Kind: "jsonseq", Case: c, Msg: fmt.Sprintf(f, a...)}
+	}
+	key, _ := json.Marshal(c)
+	nt := ""
+	if len(c.Docs) >= 2 {
+		nt = "JS|" + string(key)
+	}
+	r.Count(nt, "jsonseq/"+c.Kind+"/"+c.Mode)
+	vals := make([]interface{}, len(c.Docs))
+	maxLen := 0
+	for i, d := range c.Docs {
+		if err := json.Unmarshal([]byte(d), &vals[i]); err != nil {
+			return &vk.Fail{Kind: "decode", Msg: err.Error()}
+		}
+		switch t := vals[i].(type) {
+		case map[string]interface{}:
+			if c.Kind != "map" {
+				return &vk.Fail{Kind: "decode", Msg: "object in a slice sequence"}
+			}
+		case []interface{}:
+			if c.Kind == "map" {
+				return &vk.Fail{Kind: "decode", Msg: "array in a map sequence"}
+			}
+			if len(t) > maxLen {
+				maxLen = len(t)
+			}
+			if c.Kind == "strs" {
+				for _, e := range t {
+					if _, ok := e.(string); !ok {
+						return &vk.Fail{Kind: "decode", Msg: "non-string in a strs sequence"}
+					}
+				}
+			}
+		default:
+			return &vk.Fail{Kind: "decode", Msg: "not a container"}
+		}
+	}
+	judge := func(i int, out string) *vk.Fail {
+		if !json.Valid([]byte(out)) {
+			return fail("call %d: output %q is not valid JSON", i, out)
+		}
+		if j := strings.IndexAny(out, "<>&"); j >= 0 {
+			return fail("call %d: output %q contains raw %q", i, out, out[j])
+		}
+		var back interface{}
+		if err := json.Unmarshal([]byte(out), &back); err != nil {
+			return fail("call %d: output %q does not decode: %v", i, out, err)
+		}
+		if !reflect.DeepEqual(norm(back), norm(vals[i])) {
+			return fail("call %d of %d on one %s object: it holds %s, toJSON gave %q", i, len(c.Docs), c.Kind, c.Docs[i], out)
+		}
+		return nil
+	}
+	m := map[string]interface{}{}
+	anyBack := make([]interface{}, maxLen)
+	strBack := make([]string, maxLen)
+	// load makes the one object hold vals[i] and returns it
+	load := func(i int) interface{} {
+		switch c.Kind {
+		case "map":
+			for k := range m {
+				delete(m, k)
+			}
+			for k, x := range vals[i].(map[string]interface{}) {
+				m[k] = x
+			}
+			return m
+		case "slice":
+			src := vals[i].([]interface{})
+			copy(anyBack, src)
+			return anyBack[:len(src)]
+		default:
+			src := vals[i].([]interface{})
+			for j, e := range src {
+				strBack[j] = e.(string)
+			}
+			return strBack[:len(src)]
+		}
+	}
+	switch c.Mode {
+	case "direct", "tmpl":
+		for i := range vals {
+			v := load(i)
+			var res vk.Res
+			if c.Mode == "direct" {
+				res = vk.Safe(func() (string, error) { h, err := encoders.ToJSON(v); return string(h), err })
+			} else {
+				res = vk.Safe(func() (string, error) {
+					return plush.Render(`<%= toJSON(v) %>`, plush.NewContextWith(map[string]interface{}{"v": v}))
+				})
+			}
+			if res.Panicked() || res.Err != nil {
+				return fail("call %d: %s", i, res)
+			}
+			if f := judge(i, res.Out); f != nil {
+				return f
+			}
+		}
+		return nil
+	case "assign":
+		if c.Kind != "map" {
+			return &vk.Fail{Kind: "decode", Msg: "assign mode is for maps"}
+		}
+		// one template: the first state comes in through the context, every later one is reached by index
+		// assignments (so a later state must keep the earlier keys and may not hold nil: an assignment cannot
+		// delete, and a nil context value is an unset name)
+		load(0)
+		data := map[string]interface{}{"m": m}
+		var sb strings.Builder
+		sb.WriteString("<%= toJSON(m) %>\n")
+		for i := 1; i < len(vals); i++ {
+			prev, cur := vals[i-1].(map[string]interface{}), vals[i].(map[string]interface{})
+			for k := range prev {
+				if _, ok := cur[k]; !ok {
+					return &vk.Fail{Kind: "decode", Msg: "assign mode cannot delete a key"}
+				}
+			}
+			keys := make([]string, 0, len(cur))
+			for k := range cur {
+				keys = append(keys, k)
+			}
+			sort.Strings(keys)
+			for j, k := range keys {
+				if reflect.DeepEqual(prev[k], cur[k]) {
+					if _, had := prev[k]; had {
+						continue
+					}
+				}
+				if cur[k] == nil {
+					return &vk.Fail{Kind: "decode", Msg: "assign mode cannot assign nil"}
+				}
+				data[fmt.Sprintf("k%d_%d", i, j)] = k
+				data[fmt.Sprintf("x%d_%d", i, j)] = cur[k]
+				fmt.Fprintf(&sb, "<%% m[k%d_%d] = x%d_%d %%>", i, j, i, j)
+			}
+			sb.WriteString("<%= toJSON(m) %>\n")
+		}
+		src := sb.String()
+		res := vk.Safe(func() (string, error) { return plush.Render(src, plush.NewContextWith(data)) })
+		if nt != "" {
+			r.Sample(func() interface{} { return map[string]interface{}{"case": c, "template": src, "result": res.String()} })
+		}
+		if res.Panicked() || res.Err != nil {
+			return fail("%s: %s", src, res)
+		}
+		// the output is a stream of JSON documents separated by white space (a document may itself be spread over
+		// several lines)
+		dec := json.NewDecoder(strings.NewReader(res.Out))
+		for i := range vals {
+			var doc json.RawMessage
+			if err := dec.Decode(&doc); err != nil {
+				return fail("%s rendered %q: document %d of %d does not decode: %v", src, res.Out, i, len(vals), err)
+			}
+			if f := judge(i, string(doc)); f != nil {
+				return f
+			}
+		}
+		if rest, _ := io.ReadAll(dec.Buffered()); strings.TrimSpace(string(rest)) != "" || dec.More() {
+			return fail("%s rendered %q: more than %d documents", src, res.Out, len(vals))
+		}
+		return nil
+	}
+	return &vk.Fail{Kind: "decode", Msg: "unknown mode " + c.Mode}
+}
+
+func genJSONSeq(t *rapid.T) JSONSeqCase {
+	c := JSONSeqCase{Kind: rapid.SampledFrom([]string{"map", "slice", "strs"}).Draw(t, "kind")}
+	modes := []string{"direct", "direct", "tmpl"}
+	if c.Kind == "map" {
+		modes = append(modes, "assign")
+	}
+	c.Mode = rapid.SampledFrom(modes).Draw(t, "mode")
+	nonNil := func(label string) interface{} {
+		v := genJSON(t, 1)
+		if v == nil {
+			v = validPayload(t, label)
+		}
+		return v
+	}
+	calls := rapid.IntRange(2, 4).Draw(t, "calls")
+	switch c.Kind {
+	case "map":
+		cur := map[string]interface{}{}
+		keys := []string{"a", "b", "<k>", validPayload(t, "key")}
+		for i := 0; i < calls; i++ {
+			if c.Mode != "assign" && i > 0 && rapid.IntRange(0, 2).Draw(t, "fresh") == 0 {
+				cur = map[string]interface{}{}
+			}
+			next := map[string]interface{}{}
+			for k, x := range cur {
+				next[k] = x
+			}
+			// same key count as before or not: overwrite some values, add some keys
+			for j, n := 0, rapid.IntRange(0, 3).Draw(t, "writes"); j < n; j++ {
+				next[rapid.SampledFrom(keys).Draw(t, "k")] = nonNil("v")
+			}
+			cur = next
+			b, _ := json.Marshal(cur)
+			c.Docs = append(c.Docs, string(b))
+		}
+	default:
+		n := rapid.IntRange(0, 4).Draw(t, "len")
+		for i := 0; i < calls; i++ {
+			// usually the same length as before (the same object, one element changed), sometimes another
+			if i > 0 && rapid.IntRange(0, 3).Draw(t, "relen") == 0 {
+				n = rapid.IntRange(0, 4).Draw(t, "len2")
+			}
+			arr := make([]interface{}, n)
+			for j := range arr {
+				if c.Kind == "strs" {
+					arr[j] = validPayload(t, "e")
+				} else {
+					arr[j] = genJSON(t, 1)
+				}
+			}
+			b, _ := json.Marshal(arr)
+			c.Docs = append(c.Docs, string(b))
+		}
+	}
+	return c
+}
+
 // ---- results are values: several calls, results held --------------------------------
 
 // HeldCase: 2-4 helper calls whose results are all still held when the later calls run (Go variables, let
@@ -342,18 +1493,20 @@ type HeldCall struct {
 
 type HeldCase struct {
 	Calls []HeldCall `json:"calls"`
-	Mode  string     `json:"mode"` // direct | let | block
+	Mode  string     `json:"mode"` // direct | let | block | loop (one helper, one size, no nil: a for over the values)
 }
 
-func (h HeldCall) expr(i int) string {
+func (h HeldCall) expr(i int) string { return h.exprOn(fmt.Sprintf("x%d", i)) }
+
+func (h HeldCall) exprOn(name string) string {
 	switch h.Helper {
 	case "truncate":
-		return fmt.Sprintf("truncate(x%d, {size: %d})", i, h.Size)
+		return fmt.Sprintf("truncate(%s, {size: %d})", name, h.Size)
 	}
 	if h.Doc == "null" {
 		return h.Helper + "(nil)" // a nil context value is an unset name; spell it as the literal
 	}
-	return fmt.Sprintf("%s(x%d)", h.Helper, i)
+	return fmt.Sprintf("%s(%s)", h.Helper, name)
 }
 
 // emit: how a held result is written without being escaped again
@@ -362,6 +1515,18 @@ func (h HeldCall) emit(e string) string {
 		return "<%= " + e + " %>"
 	}
 	return "<%= raw(" + e + ") %>"
+}
+
+// judge: the statement's sentence for this helper, applied to one result; "" when out is allowed
+func (h HeldCall) judge(v interface{}, out string) string {
+	str, _ := v.(string)
+	switch h.Helper {
+	case "toJSON":
+		return jsonOracle(v, out)
+	case "truncate":
+		return truncOracle(str, h.Size, "...", out)
+	}
+	return strOracle(h.Helper, str, out)
 }
 
 func (h HeldCall) direct(v interface{}) (string, error) {
@@ -417,6 +1582,9 @@ func checkHeld(r *vk.Run, c HeldCase) *vk.Fail {
 			}
 			held[i] = res.Out
 			then[i] = strings.Clone(res.Out)
+			if msg := h.judge(vals[i], res.Out); msg != "" {
+				return fail("call %d of %d, %s(%s): %s", i, len(c.Calls), h.Helper, h.Doc, msg)
+			}
 		}
 		for i := range held {
 			if held[i] != then[i] {
@@ -432,6 +1600,9 @@ func checkHeld(r *vk.Run, c HeldCase) *vk.Fail {
 		res := vk.Safe(func() (string, error) { return plush.Render(src, plush.NewContextWith(data)) })
 		if res.Panicked() || res.Err != nil {
 			return fail("%s alone: %s", src, res)
+		}
+		if msg := h.judge(vals[i], res.Out); msg != "" {
+			return fail("call %d of %d, %s with x%d = %s: %s", i, len(c.Calls), src, i, h.Doc, msg)
 		}
 		want = append(want, res.Out)
 	}
@@ -456,6 +1627,15 @@ func checkHeld(r *vk.Run, c HeldCase) *vk.Fail {
 			sb.WriteString(h.emit(h.expr(i)))
 		}
 		sb.WriteString("<% } %>")
+	case "loop":
+		for _, h := range c.Calls {
+			if h.Helper != c.Calls[0].Helper || h.Size != c.Calls[0].Size || h.Doc == "null" {
+				return &vk.Fail{Kind: "decode", Msg: "loop mode needs one helper, one size and no nil value"}
+			}
+		}
+		data["xs"] = vals
+		sb.WriteString("<%= for (x) in xs { %>" + c.Calls[0].emit(c.Calls[0].exprOn("x")) + "|<% } %>")
+		want = append(want, "") // every round ends with the separator
 	default:
 		return &vk.Fail{Kind: "decode", Msg: "unknown mode " + c.Mode}
 	}
@@ -474,9 +1654,12 @@ func checkHeld(r *vk.Run, c HeldCase) *vk.Fail {
 }
 
 func genHeld(t *rapid.T) HeldCase {
-	c := HeldCase{Mode: rapid.SampledFrom([]string{"direct", "let", "block"}).Draw(t, "mode")}
-	same := rapid.Bool().Draw(t, "sameHelper")
-	first := ""
+	c := HeldCase{Mode: rapid.SampledFrom([]string{"direct", "let", "block", "loop"}).Draw(t, "mode")}
+	same := rapid.Bool().Draw(t, "sameHelper") || c.Mode == "loop"
+	// near: every later argument is the first one with ONE character replaced in the middle (same length, same
+	// head, same tail) - what a memo keyed by less than the whole argument cannot tell apart
+	near := same && rapid.IntRange(0, 2).Draw(t, "near") == 0
+	first, firstSize, base := "", 0, ""
 	for i, n := 0, rapid.IntRange(2, 4).Draw(t, "calls"); i < n; i++ {
 		h := HeldCall{Helper: rapid.SampledFrom([]string{"toJSON", "toJSON", "htmlEscape", "jsEscape", "raw", "truncate"}).Draw(t, "helper")}
 		if same && first != "" {
@@ -484,14 +1667,38 @@ func genHeld(t *rapid.T) HeldCase {
 		}
 		first = h.Helper
 		var v interface{}
-		if h.Helper == "toJSON" {
+		switch {
+		case near:
+			if i == 0 {
+				base = validPayload(t, "head") + "0123456789abcdef" + validPayload(t, "mid") + "0123456789abcdef" + validPayload(t, "tail")
+				v = base
+			} else {
+				rs := []rune(base)
+				k := rapid.IntRange(0, len(rs)-1).Draw(t, "at")
+				if rapid.Bool().Draw(t, "midOnly") {
+					k = len(rs) / 2
+				}
+				rs[k] = rapid.SampledFrom([]rune{'<', '>', '&', '\'', '"', '=', '\n', '\\', 'q', '\u2028', '漢'}).Draw(t, "with")
+				v = string(rs)
+			}
+			h.Size = rapid.IntRange(0, 70).Draw(t, "size")
+		case h.Helper == "toJSON":
 			v = genJSON(t, 2)
-		} else {
-			v = strings.ToValidUTF8(gen.Payload(t, "s"), "\ufffd")
+			if c.Mode == "loop" && v == nil {
+				v = false
+			}
+		default:
+			v = validPayload(t, "s")
 			h.Size = rapid.IntRange(0, 12).Draw(t, "size")
 		}
 		if h.Helper != "truncate" {
 			h.Size = 0
+		}
+		if c.Mode == "loop" {
+			if i == 0 {
+				firstSize = h.Size
+			}
+			h.Size = firstSize
 		}
 		b, _ := json.Marshal(v)
 		h.Doc = string(b)
@@ -502,19 +1709,28 @@ func genHeld(t *rapid.T) HeldCase {
 
 // ---- the test -----------------------------------------------------------------
 
-const rule = "truncate: (E) every string of length <=5 (quick: <=4) over {a, é, 漢, e+U+0301, 0xFF} x size in [-2,8] x trail in {absent, '', '.', '...', 'é漢'} directly, plus a template pass; (R) payload strings up to ~40 runes x size in [-2,70] x trails up to 8 runes. htmlEscape/jsEscape/raw: fixed hostile payloads + random payloads over the full byte alphabet, called directly and through plush.Render (htmlEscape also through its block form). toJSON: recursive generator of JSON-representable values (nil, bool, finite float64, valid UTF-8 strings, slices, string-keyed maps, nesting <=4). HELD RESULTS: 2-4 calls (one helper or mixed) whose results are all still held while the later calls run - as Go values, as let bindings emitted afterwards, or inside one block - must read exactly what each call gives alone. Oracles: rune-space prefix+trail bound and no split rune; no raw < > & ' \" and decode-back for htmlEscape; no < > & =, no unescaped quote or line break for jsEscape; byte identity for raw; valid JSON, decode-back and no raw < > & for toJSON. Non-trivial = the string is longer than size (truncate), contains a special / non-ASCII / invalid byte (escapers), contains a special or a container (toJSON); distinct by (helper, arguments, route)."
+const rule = "truncate: (E1) every string of length <=5 (quick: <=4) over {a, é, 漢, e+U+0301, 0xFF} x size in [-2,8] x trail in {absent, '', '.', '...', 'é漢'} directly, plus a template pass; (E2) the same over {a, 😀 (4 bytes), 0xE6 (lead byte without continuation), 0x80, 0xF0 0x9F (cut 4-byte sequence)}; (E3 boundary sweep) strings of n = 0..72 characters of one unit (a, é, 漢, 😀, 0xFF, or the cycle a é 漢 😀) x size (thorough: every size in [-2,72]; quick: -2..2, around the trail length, n-2..n+2, 49..51, 63..65, 70, 72) x trail in {absent, '', '.', 'é漢', 8 runes}; (E4 routes) no option given as nil map / left out / nil literal, options in a hash literal with exactly the given keys, options in a plain Go map; (R) payload strings up to ~40 runes x size in [-2,70] x trails up to 8 runes x all routes. TRUNCATE SEQUENCES: 2-5 calls sharing ONE options map whose owner sets or deletes size / trail between the calls (Go calls; one template with index assignments; a for loop). htmlEscape/jsEscape/raw: fixed hostile payloads + random payloads over the full byte alphabet, called directly and through plush.Render (htmlEscape also through its block form; the call also inside an if block, an if with return, a for body, a let, a user function, an array / hash literal that is indexed, contentFor + contentOf); every single byte; (E position sweep) one special (< > & ' \" = LF CR backslash U+2028 U+2029 NUL + backquote 0xFF 0xC3) at every position of a string of every length 1..24 (thorough 40) of filler a or é, nothing else special in the string; (E small alphabet) every string of length <=4 (thorough 5) over {backslash, ', \", LF, a, <, &, U+2028}. toJSON: recursive generator of JSON-representable values (nil, bool, finite float64, valid UTF-8 strings, slices, string-keyed maps, nesting <=4), passed in the context or (where spellable) written as a plush literal in the tag; TYPED Go values (all integer widths at their extremes incl. uint64 > MaxInt64, float32, json.Number beyond float64, named strings, []byte, typed slices / arrays / maps, int and TextMarshaler map keys, tagged and embedded structs, pointers incl. nil, own MarshalJSON emitting raw < > &, json.RawMessage with raw < > & and white space), judged by decoding the output back into the same Go type. CONTAINER SEQUENCES: one map / []interface{} / []string object encoded 2-4 times while its owner rewrites it in place between the calls (same header, same backing array, same or different length). HELD RESULTS: 2-4 calls (one helper or mixed) whose results are all still held while the later calls run - as Go values, as let bindings emitted afterwards, inside one block, or in a for loop over the arguments - must read exactly what each call gives alone; one third of the one-helper sequences use NEAR-DUPLICATE arguments (same length, head and tail, one character in the middle replaced) and fixed sequences use values whose printed forms coincide (1, \"1\", 1.0, true, \"true\", nil, \"null\", [], \"[]\", ...). Oracles: rune-space prefix+trail bound and no split rune; no raw < > & ' \" and decode-back for htmlEscape; no < > & =, no unescaped quote or line break for jsEscape, and (assumption, valid UTF-8 only) its output read as a JavaScript string body gives the input back; byte identity for raw; valid JSON, decode-back and no raw < > & for toJSON. Non-trivial = the string is longer than size (truncate), contains a special / non-ASCII / invalid byte (escapers), contains a special or a container (toJSON), every typed value, every sequence of >= 2 calls; distinct by (helper, arguments, route)."
 
 func setup(t *testing.T) *vk.Run {
 	r := vk.Start(t, "C20", rule,
 		"character = Unicode code point (rune); for invalid UTF-8 the rune-space oracle treats each invalid byte as U+FFFD, as Go's []rune conversion does",
-		"html.UnescapeString is trusted as the decoder; escaping keeps the text (decode-back) except NUL, which HTML cannot represent: it may come back as U+FFFD (what html/template emits) or be dropped",
-		"truncate is called with well-typed options (size int, trail string); wrong-typed options are C04's concern")
+		"html.UnescapeString is trusted as the decoder; escaping keeps the text (decode-back) except NUL, which is none of the five characters and has no character reference: it may be kept, come back as U+FFFD (what html/template emits) or be dropped",
+		"truncate is called with well-typed options (size int, trail string); wrong-typed options are C04's concern; 'no option given' may be spelled as an empty map, a nil map, a nil literal or a left-out argument",
+		"encoding/json is the trusted reference coder: a typed value is JSON-representable when json.Marshal accepts it, and 'decodes back to v' means json.Unmarshal of the output into v's Go type gives a value DeepEqual to v or with the same reference spelling (an omitted empty field decodes to nil)",
+		"jsEscape keeps the text (the assumption htmlEscape's decode-back rests on): its output, read as the body of a JavaScript string literal by a decoder that knows every escape form of the language, gives the input back; demanded for valid UTF-8 input only (const jsDecodeBack switches it off)")
 	r.Replayer("truncate", func(raw json.RawMessage) *vk.Fail {
 		var c TruncCase
 		if f := vk.Decode(raw, &c); f != nil {
 			return f
 		}
 		return checkTrunc(r, c)
+	})
+	r.Replayer("truncseq", func(raw json.RawMessage) *vk.Fail {
+		var c TruncSeqCase
+		if f := vk.Decode(raw, &c); f != nil {
+			return f
+		}
+		return checkTruncSeq(r, c)
 	})
 	r.Replayer("str", func(raw json.RawMessage) *vk.Fail {
 		var c StrCase
@@ -532,7 +1748,21 @@ func setup(t *testing.T) *vk.Run {
 		if err := json.Unmarshal([]byte(c.Doc), &v); err != nil {
 			return &vk.Fail{Kind: "decode", Msg: err.Error()}
 		}
-		return checkJSON(r, v, c.ViaTmpl)
+		return checkJSONCase(r, v, c.ViaTmpl, c.Lit)
+	})
+	r.Replayer("typed", func(raw json.RawMessage) *vk.Fail {
+		var c TypedCase
+		if f := vk.Decode(raw, &c); f != nil {
+			return f
+		}
+		return checkTyped(r, c)
+	})
+	r.Replayer("jsonseq", func(raw json.RawMessage) *vk.Fail {
+		var c JSONSeqCase
+		if f := vk.Decode(raw, &c); f != nil {
+			return f
+		}
+		return checkJSONSeq(r, c)
 	})
 	r.Replayer("held", func(raw json.RawMessage) *vk.Fail {
 		var c HeldCase
@@ -546,45 +1776,126 @@ func setup(t *testing.T) *vk.Run {
 
 func TestReplay(t *testing.T) { setup(t).ReplayEnv() }
 
+// truncRoutes: the routes a case with the given options can take ("" = the options map passed directly)
+func truncRoutes(hasSize, hasTrail bool) []string {
+	routes := []string{"", "tmpl-hash", "tmpl-gomap"}
+	if !hasSize && !hasTrail {
+		routes = append(routes, "nil", "tmpl-none", "tmpl-nil")
+	}
+	return routes
+}
+
 func TestProp(t *testing.T) {
 	r := setup(t)
 	defer r.Finish()
 	r.ReplayCommitted()
 
-	// E: truncate over a small alphabet
-	alpha := []string{"a", "é", "漢", "e\u0301", "\xff"}
+	// E1, E2: truncate over two small alphabets
 	trails := []struct {
 		s   string
 		has bool
 	}{{"", false}, {"", true}, {".", true}, {"...", true}, {"é漢", true}}
 	maxLen := r.Pick(4, 5)
-	var strs []string
-	var build func(prefix string, n int)
-	build = func(prefix string, n int) {
-		strs = append(strs, prefix)
-		if n == 0 {
-			return
+	for ai, alpha := range [][]string{{"a", "é", "漢", "e\u0301", "\xff"}, {"a", "😀", "\xe6", "\x80", "\xf0\x9f"}} {
+		var strs []string
+		var build func(prefix string, n int)
+		build = func(prefix string, n int) {
+			strs = append(strs, prefix)
+			if n == 0 {
+				return
+			}
+			for _, a := range alpha {
+				build(prefix+a, n-1)
+			}
 		}
-		for _, a := range alpha {
-			build(prefix+a, n-1)
-		}
+		build("", maxLen)
+		total := int64(len(strs)) * 11 * int64(len(trails))
+		r.Subspace(fmt.Sprintf("truncate E%d: strings of <=%d symbols over %q x size -2..8 x 5 trails", ai+1, maxLen, alpha), total, true)
+		r.Parallel(total, 0, func(i int64) {
+			tr := trails[i%int64(len(trails))]
+			j := i / int64(len(trails))
+			size := int(j%11) - 2
+			s := strs[j/11]
+			r.Check(checkTrunc(r, TruncCase{S: vk.Text(s), Size: size, HasSize: true, Trail: vk.Text(tr.s), HasTrail: tr.has, ViaTmpl: i%97 == 0}))
+		})
 	}
-	build("", maxLen)
-	total := int64(len(strs)) * 11 * int64(len(trails))
-	r.Subspace(fmt.Sprintf("truncate: strings of <=%d symbols over {a,é,漢,e+U+0301,0xFF} x size -2..8 x 5 trails", maxLen), total, true)
-	r.Parallel(total, 0, func(i int64) {
-		tr := trails[i%int64(len(trails))]
-		j := i / int64(len(trails))
-		size := int(j%11) - 2
-		s := strs[j/11]
-		r.Check(checkTrunc(r, TruncCase{S: vk.Text(s), Size: size, HasSize: true, Trail: vk.Text(tr.s), HasTrail: tr.has, ViaTmpl: i%97 == 0}))
-	})
-	// defaults (size 50, trail "...") around the boundary
+	// defaults (size 50, trail "...") around the boundary, on every route that gives no option
 	for n := 45; n <= 56; n++ {
-		for _, unit := range []string{"a", "漢"} {
+		for _, unit := range []string{"a", "漢", "😀"} {
 			r.Check(checkTrunc(r, TruncCase{S: vk.Text(strings.Repeat(unit, n))}))
 			r.Check(checkTrunc(r, TruncCase{S: vk.Text(strings.Repeat(unit, n)), ViaTmpl: true}))
+			for _, route := range []string{"tmpl-none", "tmpl-hash", "tmpl-gomap"} {
+				r.Check(checkTrunc(r, TruncCase{S: vk.Text(strings.Repeat(unit, n)), Route: route}))
+			}
 		}
+	}
+	// E4: no option given, spelled as a nil map (class truncate-nil-options): a short, a boundary and a long string
+	for _, n := range []int{0, 3, 50, 51, 60} {
+		for _, route := range []string{"nil", "tmpl-nil"} {
+			r.Check(checkTrunc(r, TruncCase{S: vk.Text(strings.Repeat("é", n)), Route: route}))
+		}
+	}
+	// E3: boundary sweep - length x size x trail, one unit per string
+	{
+		units := [][]string{{"a"}, {"é"}, {"漢"}, {"😀"}, {"\xff"}, {"a", "é", "漢", "😀"}}
+		btrails := []struct {
+			s   string
+			has bool
+		}{{"", false}, {"", true}, {".", true}, {"é漢", true}, {"12345678", true}}
+		const maxN, maxSize = 72, 72
+		sizesFor := func(n, tl int) []int {
+			if r.Thorough() {
+				out := make([]int, 0, maxSize+3)
+				for s := -2; s <= maxSize; s++ {
+					out = append(out, s)
+				}
+				return out
+			}
+			seen := map[int]bool{}
+			var out []int
+			add := func(vs ...int) {
+				for _, v := range vs {
+					if v >= -2 && v <= maxSize && !seen[v] {
+						seen[v] = true
+						out = append(out, v)
+					}
+				}
+			}
+			add(-2, -1, 0, 1, 2, tl-1, tl, tl+1, tl+2, n-2, n-1, n, n+1, n+2, 49, 50, 51, 63, 64, 65, 70, 72)
+			sort.Ints(out)
+			return out
+		}
+		type cell struct {
+			unit, n, size, trail int
+		}
+		var cells []cell
+		for u := range units {
+			for n := 0; n <= maxN; n++ {
+				for ti, tr := range btrails {
+					tl := runeLen(tr.s)
+					if !tr.has {
+						tl = 3
+					}
+					for _, size := range sizesFor(n, tl) {
+						cells = append(cells, cell{u, n, size, ti})
+					}
+				}
+			}
+		}
+		r.Subspace(fmt.Sprintf("truncate E3: 6 units x length 0..%d x %s x 5 trails", maxN, map[bool]string{true: "every size -2..72", false: "sizes around 0, the trail length, the string length, 50, 64, 70, 72"}[r.Thorough()]), int64(len(cells)), true)
+		r.Parallel(int64(len(cells)), 0, func(i int64) {
+			c := cells[i]
+			var sb strings.Builder
+			for k := 0; k < c.n; k++ {
+				sb.WriteString(units[c.unit][k%len(units[c.unit])])
+			}
+			tr := btrails[c.trail]
+			tc := TruncCase{S: vk.Text(sb.String()), Size: c.size, HasSize: true, Trail: vk.Text(tr.s), HasTrail: tr.has}
+			if i%53 == 0 {
+				tc.Route = "tmpl-hash"
+			}
+			r.Check(checkTrunc(r, tc))
+		})
 	}
 	// E: escapers over the fixed payloads, every route
 	for _, p := range gen.Fixed {
@@ -595,6 +1906,9 @@ func TestProp(t *testing.T) {
 					r.Check(checkStr(r, StrCase{Helper: h, S: vk.Text(p), ViaTmpl: via, Block: true}))
 				}
 			}
+			for _, w := range strWrapNames {
+				r.Check(checkStr(r, StrCase{Helper: h, S: vk.Text(p), ViaTmpl: true, Wrap: w}))
+			}
 		}
 	}
 	// every single byte and every byte pair with a special, directly
@@ -603,6 +1917,54 @@ func TestProp(t *testing.T) {
 			r.Check(checkStr(r, StrCase{Helper: h, S: vk.Text(string([]byte{byte(b)}))}))
 			r.Check(checkStr(r, StrCase{Helper: h, S: vk.Text("<" + string([]byte{byte(b)}) + "\"")}))
 		}
+	}
+	// E position sweep: ONE special at every position of a string of every length, nothing else special in it
+	{
+		specials := []string{"<", ">", "&", "'", "\"", "=", "\n", "\r", "\\", " ", " ", "\x00", "+", "`", "\xff", "\xc3"}
+		fillers := []string{"a", "é"}
+		helpers := []string{"htmlEscape", "jsEscape", "raw"}
+		maxL := r.Pick(24, 40)
+		type cell struct{ sp, fill, l, pos int }
+		var cells []cell
+		for sp := range specials {
+			for f := range fillers {
+				for l := 1; l <= maxL; l++ {
+					for pos := 0; pos < l; pos++ {
+						cells = append(cells, cell{sp, f, l, pos})
+					}
+				}
+			}
+		}
+		total := int64(len(cells)) * int64(len(helpers))
+		r.Subspace(fmt.Sprintf("escapers: one of %d specials at every position of every length 1..%d x filler {a, é} x 3 helpers", len(specials), maxL), total, true)
+		r.Parallel(total, 0, func(i int64) {
+			c := cells[i/int64(len(helpers))]
+			h := helpers[i%int64(len(helpers))]
+			s := strings.Repeat(fillers[c.fill], c.pos) + specials[c.sp] + strings.Repeat(fillers[c.fill], c.l-1-c.pos)
+			r.Check(checkStr(r, StrCase{Helper: h, S: vk.Text(s), ViaTmpl: i%41 == 0, Block: h == "htmlEscape" && i%7 == 0}))
+		})
+	}
+	// E small alphabet: backslash runs before quotes and line breaks, specials next to each other
+	{
+		alpha := []string{"\\", "'", "\"", "\n", "a", "<", "&", " "}
+		var strs []string
+		var build func(prefix string, n int)
+		build = func(prefix string, n int) {
+			strs = append(strs, prefix)
+			if n == 0 {
+				return
+			}
+			for _, a := range alpha {
+				build(prefix+a, n-1)
+			}
+		}
+		build("", r.Pick(4, 5))
+		helpers := []string{"htmlEscape", "jsEscape", "raw"}
+		total := int64(len(strs)) * int64(len(helpers))
+		r.Subspace(fmt.Sprintf("escapers: strings of <=%d symbols over %q x 3 helpers", r.Pick(4, 5), alpha), total, true)
+		r.Parallel(total, 0, func(i int64) {
+			r.Check(checkStr(r, StrCase{Helper: helpers[i%int64(len(helpers))], S: vk.Text(strs[i/int64(len(helpers))]), ViaTmpl: i%29 == 0}))
+		})
 	}
 
 	// R
@@ -613,32 +1975,171 @@ func TestProp(t *testing.T) {
 			c.Size = rapid.IntRange(-2, 70).Draw(t, "size")
 		}
 		if c.HasTrail {
-			tr := []rune(gen.Payload(t, "trail"))
-			if len(tr) > 8 {
-				tr = tr[:8]
+			c.Trail = vk.Text(shortTrail(t, "trail"))
+		}
+		if rapid.IntRange(0, 3).Draw(t, "routed") == 0 {
+			routes := truncRoutes(c.HasSize, c.HasTrail)
+			if c.Route = rapid.SampledFrom(routes).Draw(t, "route"); c.Route == "nil" || c.Route == "tmpl-nil" {
+				c.Route = "tmpl-none" // the nil-map spellings are enumerated above (class truncate-nil-options)
 			}
-			c.Trail = vk.Text(string(tr))
 		}
 		return checkTrunc(r, c)
 	})
+	r.Rapid("truncseq", r.Pick(3000, 40000), func(t *rapid.T) *vk.Fail { return checkTruncSeq(r, genTruncSeq(t)) })
 	r.Rapid("escapers", r.Pick(6000, 80000), func(t *rapid.T) *vk.Fail {
 		c := StrCase{Helper: rapid.SampledFrom([]string{"htmlEscape", "jsEscape", "raw"}).Draw(t, "helper"),
 			S: vk.Text(gen.Payload(t, "s")), ViaTmpl: rapid.IntRange(0, 3).Draw(t, "via") == 0}
 		if c.Helper == "htmlEscape" {
 			c.Block = rapid.IntRange(0, 3).Draw(t, "block") == 0
 		}
+		if c.ViaTmpl && !c.Block && rapid.Bool().Draw(t, "wrapped") {
+			c.Wrap = rapid.SampledFrom(strWrapNames).Draw(t, "wrap")
+		}
 		return checkStr(r, c)
 	})
 	r.Rapid("toJSON", r.Pick(4000, 50000), func(t *rapid.T) *vk.Fail {
 		return checkJSON(r, genJSON(t, 4), rapid.IntRange(0, 3).Draw(t, "via") == 0)
 	})
+	r.Rapid("toJSON-literal", r.Pick(2000, 30000), func(t *rapid.T) *vk.Fail {
+		v := genLitJSON(t, 3)
+		if _, ok := plushLit(v); !ok {
+			panic("harness: genLitJSON built a value that plushLit cannot spell")
+		}
+		return checkJSONCase(r, v, true, true)
+	})
+	// typed values: every type at its fixed edge values, then random
+	for _, tc := range fixedTyped() {
+		for _, via := range []bool{false, true} {
+			tc.ViaTmpl = via
+			r.Check(checkTyped(r, tc))
+		}
+	}
+	r.Rapid("toJSON-typed", r.Pick(4000, 50000), func(t *rapid.T) *vk.Fail { return checkTyped(r, genTyped(t)) })
+	// one container rewritten in place between the calls
+	for _, mode := range []string{"direct", "tmpl"} {
+		r.Check(checkJSONSeq(r, JSONSeqCase{Kind: "map", Mode: mode, Docs: []string{`{"a":1,"b":"<x>"}`, `{"a":2,"b":"<x>"}`, `{"a":2,"c":[1]}`, `{}`, `{"a":1,"b":"<x>"}`}}))
+		r.Check(checkJSONSeq(r, JSONSeqCase{Kind: "slice", Mode: mode, Docs: []string{`[1,2,3]`, `[1,"<",3]`, `[1,"<"]`, `[1,"<",4]`, `[]`, `[null]`}}))
+		r.Check(checkJSONSeq(r, JSONSeqCase{Kind: "strs", Mode: mode, Docs: []string{`["a","b","c"]`, `["a","&","c"]`, `["a","&"]`, `["a","&","d"]`, `[]`}}))
+	}
+	r.Check(checkJSONSeq(r, JSONSeqCase{Kind: "map", Mode: "assign", Docs: []string{`{"a":1,"b":"<x>"}`, `{"a":2,"b":"<x>"}`, `{"a":2,"b":"<x>","c":[1]}`}}))
+	r.Rapid("jsonseq", r.Pick(3000, 40000), func(t *rapid.T) *vk.Fail { return checkJSONSeq(r, genJSONSeq(t)) })
 	// results held across later calls: fixed sequences (long value first, so that a later, shorter result fits
 	// wherever the earlier one was built), then random ones
-	for _, mode := range []string{"direct", "let", "block"} {
+	for _, mode := range []string{"direct", "let", "block", "loop"} {
 		for _, h := range []string{"toJSON", "htmlEscape", "jsEscape", "raw", "truncate"} {
-			r.Check(checkHeld(r, HeldCase{Mode: mode, Calls: []HeldCall{{Helper: h, Doc: `"a long first value <&> with 'specials'"`, Size: 20}, {Helper: h, Doc: `"b"`, Size: 20}, {Helper: h, Doc: `"<c>"`, Size: 2}}}))
+			size2 := 2
+			if mode == "loop" {
+				size2 = 20
+			}
+			r.Check(checkHeld(r, HeldCase{Mode: mode, Calls: []HeldCall{{Helper: h, Doc: `"a long first value <&> with 'specials'"`, Size: 20}, {Helper: h, Doc: `"b"`, Size: 20}, {Helper: h, Doc: `"<c>"`, Size: size2}}}))
+			// near-duplicates: same length, same first and last 16 bytes
+			r.Check(checkHeld(r, HeldCase{Mode: mode, Calls: []HeldCall{{Helper: h, Doc: `"0123456789abcdef-x-0123456789abcdef"`, Size: 30}, {Helper: h, Doc: `"0123456789abcdef-<-0123456789abcdef"`, Size: 30}, {Helper: h, Doc: `"0123456789abcdef-'-0123456789abcdef"`, Size: 30}}}))
 		}
-		r.Check(checkHeld(r, HeldCase{Mode: mode, Calls: []HeldCall{{Helper: "toJSON", Doc: `{"k":[1,2,3],"s":"<x>"}`}, {Helper: "toJSON", Doc: `[true,null]`}, {Helper: "toJSON", Doc: `null`}}}))
+		if mode != "loop" {
+			r.Check(checkHeld(r, HeldCase{Mode: mode, Calls: []HeldCall{{Helper: "toJSON", Doc: `{"k":[1,2,3],"s":"<x>"}`}, {Helper: "toJSON", Doc: `[true,null]`}, {Helper: "toJSON", Doc: `null`}}}))
+		}
+		// values whose printed forms coincide, in both orders
+		confusable := [][]string{{`1`, `"1"`, `1.5`, `"1.5"`}, {`true`, `"true"`, `false`, `"false"`}, {`"null"`, `"<nil>"`, `""`, `"nil"`},
+			{`[]`, `"[]"`, `{}`, `"{}"`}, {`[1,2]`, `["1 2"]`, `["1","2"]`, `"[1 2]"`}, {`{"a":1}`, `{"a":"1"}`, `"map[a:1]"`, `[{"a":1}]`}, {`[[]]`, `[]`, `[{}]`, `[""]`}}
+		for _, docs := range confusable {
+			for _, rev := range []bool{false, true} {
+				var calls []HeldCall
+				for i := range docs {
+					d := docs[i]
+					if rev {
+						d = docs[len(docs)-1-i]
+					}
+					calls = append(calls, HeldCall{Helper: "toJSON", Doc: d})
+				}
+				r.Check(checkHeld(r, HeldCase{Mode: mode, Calls: calls}))
+			}
+		}
 	}
-	r.Rapid("held", r.Pick(3000, 40000), func(t *rapid.T) *vk.Fail { return checkHeld(r, genHeld(t)) })
+	r.Rapid("held", r.Pick(4000, 50000), func(t *rapid.T) *vk.Fail { return checkHeld(r, genHeld(t)) })
+}
+
+// genLitJSON draws a JSON value that plushLit can spell
+func genLitJSON(t *rapid.T, depth int) interface{} {
+	max := 5
+	if depth <= 0 {
+		max = 3
+	}
+	str := func(label string) string {
+		frags := []string{"<", ">", "&", "'", "=", "&amp;", "</script>", "<!--", "a", "b", "x y", "é", "漢", "😀", "#", "{", "}", "[", "]", ",", ":", "`", "$", "0"}
+		var sb strings.Builder
+		for i, n := 0, rapid.IntRange(0, 6).Draw(t, label+"_n"); i < n; i++ {
+			sb.WriteString(rapid.SampledFrom(frags).Draw(t, label))
+		}
+		return sb.String()
+	}
+	switch rapid.IntRange(0, max).Draw(t, "kind") {
+	case 0:
+		return nil
+	case 1:
+		return rapid.Bool().Draw(t, "b")
+	case 2:
+		if rapid.Bool().Draw(t, "int") {
+			return float64(rapid.SampledFrom([]int{0, 1, 7, 42, 255, 65536, 1<<31 - 1}).Draw(t, "i"))
+		}
+		return float64(rapid.IntRange(0, 4000).Draw(t, "q")) / 8
+	case 3:
+		return str("s")
+	case 4:
+		n := rapid.IntRange(0, 4).Draw(t, "n")
+		out := make([]interface{}, n)
+		for i := range out {
+			out[i] = genLitJSON(t, depth-1)
+		}
+		return out
+	default:
+		n := rapid.IntRange(0, 4).Draw(t, "n")
+		out := map[string]interface{}{}
+		for i := 0; i < n; i++ {
+			out[str("k")] = genLitJSON(t, depth-1)
+		}
+		return out
+	}
+}
+
+// fixedTyped: every registered type at its edges
+func fixedTyped() []TypedCase {
+	var out []TypedCase
+	add := func(typ string, docs ...string) {
+		for _, d := range docs {
+			out = append(out, TypedCase{Type: typ, Doc: d})
+		}
+	}
+	add("int", "0", "-1", "9223372036854775807", "-9223372036854775808")
+	add("int8", "127", "-128")
+	add("int32", "2147483647", "-2147483648")
+	add("int64", "9223372036854775807", "-9223372036854775808", "9007199254740993")
+	add("uint", "0", "18446744073709551615", "9223372036854775808")
+	add("uint8", "0", "255")
+	add("uint64", "0", "9223372036854775807", "9223372036854775808", "18446744073709551615", "9007199254740993")
+	add("float32", "0.1", "3.4028235e+38", "1e-45", "16777217")
+	add("float64", "0.1", "1.7976931348623157e+308", "5e-324", "-0", "1e21", "1e-7", "123456789012345680000")
+	add("number", "0", "18446744073709551616", "123456789012345678901234567890", "1e400", "-1.5E-7")
+	add("string", `""`, `"<>&'\""`, `"  "`, `"\u0000\u001f\u007f"`, `"😀é漢"`)
+	add("html", `""`, `"<b>&amp;</b>"`)
+	add("bytes", `null`, `""`, `"PD4m"`, `"/w=="`)
+	add("strs", `null`, `[]`, `[""]`, `["<"]`, `["a","<b>","&","'\"", " "]`, `["\u0001\\"]`)
+	add("strs2", `null`, `[[]]`, `[null,["<"],[]]`)
+	add("htmls", `["<b>"]`)
+	add("ints", `[]`, `[9223372036854775807,-9223372036854775808]`)
+	add("uints", `[18446744073709551615,0]`)
+	add("arr", `["","<","&"]`)
+	add("mss", `null`, `{}`, `{"<k>":"&v"}`, `{"":"", "a":"<"}`)
+	add("mis", `{}`, `{"-1":"<","9223372036854775807":"&"}`)
+	add("msints", `{"<":[1,-1],"":null}`)
+	add("rec", `{}`, `{"name":"<n>","tags":["&"],"n":-9223372036854775808,"u":18446744073709551615,"f":0.1,"h":"<b>","b":"PD4=","label":"'","attrs":{"<":">"},"Plain":"&","next":{"name":"inner","next":{"name":"<"}}}`, `{"tags":[]}`)
+	add("prec", `null`, `{"name":"<"}`)
+	add("recs", `null`, `[]`, `[{"name":"<"},{}]`)
+	add("pstr", `null`, `"<"`)
+	add("ppstr", `null`, `"&"`)
+	add("marsh", `{"w":""}`, `{"w":"<>&"}`, `{"w":" "}`)
+	add("marshs", `[{"w":"<"},{"w":"&"}]`)
+	add("tkeys", `{}`, `{"k:<a>":"x","k:&":"<"}`)
+	add("any", `null`, `[1,"<",{"&":null}]`)
+	add("raw", `null`, `"<>&"`, `{"a" : "<b>&" ,	"c":[1, 2 , 12345678901234567890123],"d":1E2}`, ` [ "<" , "<" ] `)
+	return out
 }
